@@ -417,6 +417,8 @@ def evaluate(run, want=None):
                                 I.v("C02", msg)
                     elif rec is None:
                         I.c("task_exit_record_missing")
+                    else:
+                        I.c("tasks_budget_exhausted_no_claim")
             if eps_floor == 0:
                 if not np.all(np.isfinite(th)):
                     I.v("C03", "round %d cluster %d: MRF has non-finite entries" % (r, k))
